@@ -22,7 +22,8 @@ Python values: `null`, `true/false`, integers, strings, `{"t":[…]}` tuple, `{"
          "hist":[…oldest first…],"queue":[[cmd,cb]…],"pend":[[key,cmd,cb]…],"counter":n,
          "threads":[[next,phase]…]}
 ```
-{"op":"wake","max":m,"cap":c,"readOnce":b,"steps":[["put",v] | ["notify",k] | ["process",k] | ["poll"] …]}
+{"op":"wake","max":m,"cap":c,"chunk":n,"steps":[["put",v] | ["notify",k] | ["notifyBits","1011…"] | ["process",k] | ["poll"] …]}
+     (chunk 0 = the pipe is read until empty; notifyBits: one notify per character, '0' = the kernel refuses the byte unless the pipe is empty)
      -> {"steps":[{"pipe":n,"qlen":n,"raised":b,"full":b,"sleeps":b} …]}   (PSO.Queue.Wake, the wake-up pipe)
 `resultOf (call ⟨t,k⟩) = 1000*t + k`, `resultOf (foreign k) = 900000 + k`.
 -/
@@ -242,9 +243,9 @@ def handle (j : Json) : Except String Json := do
   | "wake" =>
       let m ← (← j.getObjVal? "max").getNat?
       let cap ← (← j.getObjVal? "cap").getNat?
-      let ro := match j.getObjVal? "readOnce" with
-        | .ok (.bool b) => b
-        | _ => false
+      let ro : Nat := match j.getObjVal? "chunk" with
+        | .ok v => (v.getNat?).toOption.getD 0
+        | .error _ => 0
       let steps ← (← j.getObjVal? "steps").getArr?
       let mut w := Wake.init m cap ro
       let mut outs : Array Json := #[]
@@ -255,7 +256,10 @@ def handle (j : Json) : Except String Json := do
         let arg : Nat := if a.size > 1 then (a[1]!.getNat?).toOption.getD 0 else 0
         let ls : List WLabel ← match opn with
           | "put" => pure [WLabel.put arg]
-          | "notify" => pure (List.replicate (max arg 1) WLabel.notify)
+          | "notify" => pure (List.replicate (max arg 1) (WLabel.notify true))
+          | "notifyBits" =>
+              let bits ← if a.size > 1 then a[1]!.getStr? else pure ""
+              pure (bits.toList.map fun c => WLabel.notify (c == '1'))
           | "process" => pure [WLabel.process arg]
           | "poll" => pure [WLabel.poll]
           | _ => throw s!"unknown wake step {opn}"
